@@ -48,4 +48,71 @@ def decisionsOf (k : Nat) : List Nat :=
 theorem C08_model_decisions_match_source :
     ∀ s ∈ SState.all, (modelDecisions s).map SState.code = decisionsOf s.code := by decide
 
+/-! ## Local progress: the decisions that un-park an instance (no oracle, every configuration, every state) -/
+
+/-- the state of the Master as the local instance holds it -/
+def masterFsm (c : Cfg) (s : St) : Option SState :=
+  match (s.modes.getD c.me {}).master with
+  | none => none
+  | some m => some (s.modes.getD m {}).fsm
+
+/-- **C08, a Slave does not stay in ELECTION behind its Master** (the defect repaired by e607c09).  Context stable, every RUNNING
+    instance acknowledges the same RUNNING Master, which is not the local instance and has reached DISTRIBUTION, OPERATION or
+    CONCILIATION: `ElectionState.next` decides DISTRIBUTION and changes nothing else. -/
+theorem C08_slave_leaves_election (c : Cfg) (s : St) (hst : s.stable ≠ []) (hcm : checkMasterP c s.modes = true)
+    (hnm : (s.modes.getD c.me {}).master ≠ some c.me)
+    (hms : masterFsm c s = some .distribution ∨ masterFsm c s = some .operation ∨ masterFsm c s = some .conciliation) :
+    (nextElection c).run s = .ok (some .distribution, s) := by
+  have hstb : (!s.stable.isEmpty) = true := by cases h : s.stable <;> simp_all
+  unfold masterFsm at hms
+  generalize hlm : s.modes.getD c.me {} = lm at *
+  cases hm : lm.master with
+  | none => rw [hm] at hms; rcases hms with h | h | h <;> cases h
+  | some m =>
+    rw [hm] at hms
+    have hms' : some (s.modes.getD m {}).fsm = some SState.distribution ∨ some (s.modes.getD m {}).fsm = some SState.operation
+        ∨ some (s.modes.getD m {}).fsm = some SState.conciliation := hms
+    clear hms
+    have hne : ¬ (some m = some c.me) := by rw [← hm]; exact hnm
+    generalize hmm : s.modes.getD m {} = mm at *
+    simp only [nextElection, isStable, checkMaster, isMaster, masterState, localModes, getModes, bind, StateT.bind, StateT.run,
+      get, getThe, MonadStateOf.get, StateT.get, pure, StateT.pure, Except.pure, Except.bind, hstb, hcm, if_true, hlm, hm, hne,
+      decide_false, Bool.false_eq_true, if_false, hmm, hms']
+
+/-- **C08, the elected Master leaves ELECTION**: stable context, its election acknowledged by every RUNNING instance. -/
+theorem C08_master_leaves_election (c : Cfg) (s : St) (hst : s.stable ≠ []) (hcm : checkMasterP c s.modes = true)
+    (him : (s.modes.getD c.me {}).master = some c.me) :
+    (nextElection c).run s = .ok (some .distribution, s) := by
+  have hstb : (!s.stable.isEmpty) = true := by cases h : s.stable <;> simp_all
+  generalize hlm : s.modes.getD c.me {} = lm at *
+  simp only [nextElection, isStable, checkMaster, isMaster, localModes, getModes, bind, StateT.bind, StateT.run,
+    get, getThe, MonadStateOf.get, StateT.get, pure, StateT.pure, Except.pure, Except.bind, hstb, hcm, if_true, hlm, him, decide_true]
+
+/-- **C08, a Slave follows its Master** through DISTRIBUTION / OPERATION / CONCILIATION: the decision is the state of the Master
+    (or none when no Master is known), whatever the oracle says about jobs and conflicts (a Slave asks nothing). -/
+theorem C08_slave_follows_master (c : Cfg) (s : St) (hnm : (s.modes.getD c.me {}).master ≠ some c.me) :
+    (nextDistribution c).run s = .ok (masterFsm c s, s) ∧ (nextOperation c).run s = .ok (masterFsm c s, s)
+    ∧ (nextConciliation c).run s = .ok (masterFsm c s, s) := by
+  unfold masterFsm
+  generalize hlm : s.modes.getD c.me {} = lm at *
+  have hne : ¬ (lm.master = some c.me) := hnm
+  refine ⟨?_, ?_, ?_⟩ <;>
+  · simp only [nextDistribution, nextOperation, nextConciliation, isMaster, masterState, localModes, getModes, bind, StateT.bind, StateT.run,
+      get, getThe, MonadStateOf.get, StateT.get, pure, StateT.pure, Except.pure, Except.bind, hlm, hne, decide_false, Bool.false_eq_true, if_false]
+    cases hm : lm.master with
+    | none => rfl
+    | some m => rfl
+
+-- non-vacuity: instance 1 of two, both RUNNING and agreeing on Master 0 which is in OPERATION
+def exCfg : Cfg := { n := 2, me := 1, nickRank := [0, 1], core := [], initial := [0, 1], optStrict := false, optList := true,
+                     optTimeout := false, optCore := false, optUser := false, syncTimeout := 20480, inactivity := 2, autoFence := false,
+                     failStrat := .cont }
+def exSt : St :=
+  { peers := [{ state := .running }, { state := .running }],
+    modes := [{ fsm := .operation, master := some 0, inst := [.running, .running] },
+              { fsm := .election, master := some 0, inst := [.running, .running] }],
+    stable := [0, 1] }
+example : exSt.stable ≠ [] ∧ checkMasterP exCfg exSt.modes = true ∧ (exSt.modes.getD exCfg.me {}).master ≠ some exCfg.me
+    ∧ masterFsm exCfg exSt = some .operation := by decide
+
 end Supv.Props.C08
